@@ -104,6 +104,18 @@ def cases(ctx):
                                     yield dict(op="surv.identity " + m, real=("pyModeS.surv.identity", [m]), expect=e, tag="surv.identity")
                             m = hex_of(spec.adsb_frame(rng, 28, [(11, 13, code)], df=rng.choice([17, 18])))
                             yield dict(op="emergency_squawk " + m, real=("pyModeS.adsb.emergency_squawk", [m]), expect=e, tag="tc28")
+    # TC28: identity code x subtype x emergency state (the squawk is returned as transmitted whatever the other
+    # fields say: "independent of every other bit" includes the emergency state that a squawk conventionally implies)
+    special = [(0, 0, 0, 0), (7, 5, 0, 0), (7, 6, 0, 0), (7, 7, 0, 0), (7, 7, 7, 7), (0, 0, 0, 1), (4, 0, 0, 0), (1, 2, 0, 0)]
+    special += [tuple(rng.randrange(8) for _ in range(4)) for _ in range(ctx.n(8, 64))]
+    for (a, b, c, d) in special:
+        for x in (0, 1):
+            for st in range(8):
+                for es in range(8):
+                    code = id13(a, b, c, d, x)
+                    m = hex_of(spec.adsb_frame(rng, 28, [(5, 3, st), (8, 3, es), (11, 13, code)], df=rng.choice([17, 18])))
+                    yield dict(op="emergency_squawk " + m, real=("pyModeS.adsb.emergency_squawk", [m]), expect="%d%d%d%d" % (a, b, c, d),
+                               tag="tc28-subtype-state")
     for n in range(4096):
         a, b, c, d = n >> 9, (n >> 6) & 7, (n >> 3) & 7, n & 7
         for x in (0, 1):
